@@ -22,6 +22,7 @@ def run(rep: core.Report):
     rep.rule("R19a", "prefactors: <u^2> per mode = hbar/(2 m w) (1+2n) and k_B T/(m w^2) in angstrom^2 for w = 2 pi f THz, m in AMU — for ThermalMotion._get_Q2 / masses and for RandomDisplacements sigma^2 / mass", 5)
     rep.rule("R19b", "one Bose-Einstein factor: bose_einstein_dist and ThermalMotion._get_population evaluate 1/(exp(THzToEv f/(Kb T)) - 1); the population is used for every T > 0", 4)
     rep.rule("R19d", "frame typing of the sampler's set-up: supercell positions are converted to primitive components with the matrix of matching orientation, phases contract primitive components with reduced q-points", 3)
+    rep.rule("R19e", "independence of the normal variates of one sample: along every path through RandomDisplacements.run at most one random generator is constructed from the caller's seed (interprocedural count over the methods run calls)", 1)
     rep.rule("R19c", "conjugate-pair bookkeeping: q = -q+G points use real phases without the sqrt(2), the other points the sqrt(2) and (real, imag) parts with opposite signs; the partition is computed once", 5)
     want_q = HBAR * EVs * (N_ + sp.Rational(1, 2)) / (M * AMU * 2 * sp.pi * F * THZ) / ANG**2
     want_c = KB * EVs * T / (M * AMU * (2 * sp.pi * F * THZ) ** 2) / ANG**2
@@ -108,6 +109,7 @@ def run(rep: core.Report):
                  f"the Bose-Einstein population is used only where {conds}: for temperatures between 0 and that threshold the mean-square displacements are those of T = 0, unlike the sampler's distribution", line=gp.lineno)
 
     _r19d(rep)
+    _r19e(rep)
     # R19c
     sii = core.find_def(RD, "RandomDisplacements._solve_ii")
     sij = core.find_def(RD, "RandomDisplacements._solve_ij")
@@ -176,6 +178,51 @@ def run(rep: core.Report):
     rep.instance("R19c", RD, "RandomDisplacements._setup_sampling_qpoints", core.src(part[0]) if part else "<vanished>", len(part) == 1 and core.src(part[0].targets[0]) == "(self._ii, self._ij)", "the ii/ij partition is not computed once by categorize_commensurate_points", line=part[0].lineno if part else 0)
 
 
+def _r19e(rep):
+    cls = core.find_def(RD, "RandomDisplacements")
+    methods = {m.name: m for m in cls.body if isinstance(m, ast.FunctionDef)}
+    if "run" not in methods:
+        raise AnalysisError("anchor vanished: RandomDisplacements.run")
+    sites = []
+
+    def seeded_ctor(c):
+        f = core.src(c.func)
+        if f in ("np.random.default_rng", "np.random.RandomState", "np.random.Generator", "np.random.seed", "default_rng") or f.endswith(".default_rng"):
+            return bool(c.args or c.keywords)
+        return False
+
+    def count_expr(e, stack):
+        n = 0
+        for c in [x for x in ast.walk(e) if isinstance(x, ast.Call)]:
+            if seeded_ctor(c):
+                n += 1
+                sites.append(c)
+            elif isinstance(c.func, ast.Attribute) and isinstance(c.func.value, ast.Name) and c.func.value.id == "self" and c.func.attr in methods and c.func.attr not in stack:
+                n += count_block(methods[c.func.attr].body, stack + [c.func.attr])
+        return n
+
+    def count_block(stmts, stack):
+        total = 0
+        for st in stmts:
+            if isinstance(st, ast.If):
+                total += count_expr(st.test, stack) + max(count_block(st.body, stack), count_block(st.orelse, stack))
+            elif isinstance(st, (ast.For, ast.While)):
+                inner = count_block(st.body, stack)
+                total += (count_expr(st.iter, stack) if isinstance(st, ast.For) else 0) + (inner * 2 if inner else 0)  # a loop may run more than once
+            elif isinstance(st, (ast.With, ast.Try)):
+                total += count_block(st.body, stack)
+            elif isinstance(st, (ast.FunctionDef, ast.ClassDef)):
+                continue
+            else:
+                total += count_expr(st, stack)
+        return total
+
+    n = count_block(methods["run"].body, ["run"])
+    where = sorted({f"{core.qualname_of(c)}:{core.norm(core.src(c), 50)}" for c in sites})
+    rep.instance("R19e", RD, "RandomDisplacements.run", f"seeded generators constructed on the longest path through run: {n} ({where})", n <= 1,
+                 f"{n} generators are constructed from the same seed during one run: their streams are identical, so the variates of different modes (q = -q+G modes and conjugate pairs) are copies of each other and the sample covariance is not the harmonic one", line=methods["run"].lineno)
+
+
 def _r19d(rep):
     from engine import frames
     from engine.frames import A, C, L, U
@@ -233,5 +280,6 @@ def selftest():
     n("phase written first in the pair accumulation", RD, "            u += (u_red[0] * phase).real", "            u += (phase * u_red[0]).real")
     b("pair accumulation adds the imaginary part", RD, "            u -= (u_red[1] * phase).imag", "            u += (u_red[1] * phase).imag", "R19c", "_solve_ij")
     b("ij phase evaluated at lattice points", RD, "np.exp(2j * np.pi * np.dot(self._spos, q)).reshape(-1, 1)", "np.exp(2j * np.pi * np.dot(self._lpos, q)).reshape(-1, 1)", "R19c", "_prepare")
+    b("a second generator from the same seed", RD, "            randn_ii = rng.standard_normal(size=shape)\n", "            randn_ii = rng.standard_normal(size=shape)\n            rng = np.random.default_rng(seed=random_seed)\n", "R19e", "run")
     n("Q2 factors reordered", TD, "            Hbar\n            * EV\n            / Angstrom**2", "            EV\n            * Hbar\n            / Angstrom**2")
     return V
